@@ -326,6 +326,8 @@ impl<K: CacheKey + 'static> DiskCache<K> {
 
         // Write to temporary file first for atomicity
         let temp_path = path.with_extension("tmp");
+        #[cfg(feature = "verif-hooks")]
+        crate::verif_hooks::sched_point("disk.write_file.before_temp_open");
 
         // Ensure parent directory exists
         if let Some(parent) = temp_path.parent() {
@@ -341,6 +343,8 @@ impl<K: CacheKey + 'static> DiskCache<K> {
                 .map_err(CacheError::Io)?;
 
             file.write_all(data).map_err(CacheError::Io)?;
+            #[cfg(feature = "verif-hooks")]
+            crate::verif_hooks::sched_point("disk.write_file.after_write");
             file.flush().map_err(CacheError::Io)?;
 
             // Force data to disk for durability in cache operations
@@ -356,6 +360,8 @@ impl<K: CacheKey + 'static> DiskCache<K> {
             }
         }
 
+        #[cfg(feature = "verif-hooks")]
+        crate::verif_hooks::sched_point("disk.write_file.before_rename");
         // Atomic rename
         fs::rename(&temp_path, path).map_err(CacheError::Io)?;
 
@@ -489,6 +495,8 @@ impl<K: CacheKey + 'static> AsyncCache<K> for DiskCache<K> {
                 .map_err(|_| CacheError::LockTimeout("index read lock".to_string()))?;
             index.get(key).cloned()
         };
+        #[cfg(feature = "verif-hooks")]
+        crate::verif_hooks::sched_point("disk.get.after_index_read");
 
         if let Some(entry) = entry_info {
             if entry.is_expired() {
@@ -507,9 +515,13 @@ impl<K: CacheKey + 'static> AsyncCache<K> for DiskCache<K> {
                 return Ok(None);
             }
 
+            #[cfg(feature = "verif-hooks")]
+            crate::verif_hooks::sched_point("disk.get.before_read_file");
             // Read file content
             match self.read_file(&entry.file_path).await {
                 Ok(data) => {
+                    #[cfg(feature = "verif-hooks")]
+                    crate::verif_hooks::sched_point("disk.get.after_read_file");
                     // Update access time
                     if let Ok(mut index) = self.index.write()
                         && let Some(entry) = index.get_mut(key)
@@ -537,6 +549,8 @@ impl<K: CacheKey + 'static> AsyncCache<K> for DiskCache<K> {
             // Not in index - try to find file on disk as fallback
             let file_path = self.get_file_path(key);
             if file_path.exists() {
+                #[cfg(feature = "verif-hooks")]
+                crate::verif_hooks::sched_point("disk.get.fallback.before_read_file");
                 // Found file on disk - try to read it and add to index
                 match self.read_file(&file_path).await {
                     Ok(data) => {
@@ -587,9 +601,13 @@ impl<K: CacheKey + 'static> AsyncCache<K> for DiskCache<K> {
 
         let file_path = self.get_file_path(&key);
 
+        #[cfg(feature = "verif-hooks")]
+        crate::verif_hooks::sched_point("disk.put.before_write_file");
         // Write data to disk
         self.write_file(&file_path, &value).await?;
 
+        #[cfg(feature = "verif-hooks")]
+        crate::verif_hooks::sched_point("disk.put.before_index_update");
         // Update index
         {
             let mut index = self
@@ -647,6 +665,8 @@ impl<K: CacheKey + 'static> AsyncCache<K> for DiskCache<K> {
     }
 
     async fn remove(&self, key: &K) -> CacheResult<bool> {
+        #[cfg(feature = "verif-hooks")]
+        crate::verif_hooks::sched_point("disk.remove.before_lock");
         let mut index = self
             .index
             .write()
@@ -666,6 +686,8 @@ impl<K: CacheKey + 'static> AsyncCache<K> for DiskCache<K> {
     }
 
     async fn clear(&self) -> CacheResult<()> {
+        #[cfg(feature = "verif-hooks")]
+        crate::verif_hooks::sched_point("disk.clear.before_lock");
         let mut index = self
             .index
             .write()
@@ -678,6 +700,8 @@ impl<K: CacheKey + 'static> AsyncCache<K> for DiskCache<K> {
 
         index.clear();
         drop(index); // Release lock early to reduce contention
+        #[cfg(feature = "verif-hooks")]
+        crate::verif_hooks::sched_point("disk.clear.after_index_clear");
 
         self.entry_count.store(0, Ordering::Relaxed);
         self.disk_usage.store(0, Ordering::Relaxed);
